@@ -29,6 +29,10 @@ type Fault struct {
 	BadJSON   bool               // replace the body by something that is not JSON
 	CloseConn bool               // hijack and close the TCP connection without answering
 	Mutate    func(resp any) any // rewrite the decoded response (map or []any) before sending
+	// Lag > 0: the request is answered by a replica that is Lag blocks behind
+	// (load-balanced provider): blocks above its head do not exist for it (null
+	// results, eth_getLogs answers from the blocks it has). Correct data, incomplete.
+	Lag int
 }
 
 type Served struct {
@@ -443,6 +447,12 @@ func (n *Node) Handle(body []byte) (status int, out []byte, closeConn bool) {
 	}
 	sv := Served{Seq: ri.Seq, Kind: ri.Kind}
 	var resp any
+	if fault != nil && fault.Lag > 0 {
+		full := n.Chain
+		k := max(1, len(full.Blocks)-fault.Lag)
+		n.Chain = &Chain{Blocks: full.Blocks[:k:k]}
+		defer func() { n.Chain = full }()
+	}
 	if batch {
 		arr := make([]any, len(calls))
 		for i, c := range calls {
